@@ -200,6 +200,18 @@ FViol(ev, r, ln) ==
                                             ELSE IF excAfter THEN "after a single, unreported output fault and a successful rotation a call on the new output (which met no fault) failed"
                                             ELSE "after a single, unreported output fault an output opened later (which met no fault) is not a complete stream holding what was written to it",
                                    outs |-> bad]>>)
+    \* the exporter's counters (api entries carry 10^6 * blocks written + buffered items after the call): a buffer / write_block
+    \* call that ended with an exception wrote no block - the blocks-written counter is what it was before the call
+    \o (LET apis == {i \in 1..Len(ev.log) : ev.log[i].t = "api"}
+            prevApi(i) == {j \in apis : j < i}
+            bad == {i \in apis : /\ ev.log[i].c \in {"rec", "wb"} /\ ev.log[i].r # "ok" /\ prevApi(i) # {}
+                                 /\ LET j == CHOOSE x \in prevApi(i) : \A y \in prevApi(i) : y <= x IN
+                                    ev.log[j].c \in {"open", "rec", "wb"} /\ (ev.log[i].n \div 1000000) # (ev.log[j].n \div 1000000)}
+        IN IF sc.target # "exporter" \/ bad = {} THEN <<>>
+           ELSE <<[l |-> ln, prop |-> "C12,C16", ctx |-> Ctx(r), k |-> ev.k, kind |-> sc.kind, comp |-> sc.comp, target |-> sc.target,
+                   fault |-> ev.fault, persistent |-> ev.persistent, phase |-> FaultPhase(ev.log), symptom |-> "counter_after_failed_write",
+                   what |-> "a buffer / write_block call that failed with an exception changed the number of blocks written",
+                   calls |-> bad]>>)
     \o (IF ~(hasRecover /\ w.blockExc /\ sc.target = "exporter") THEN <<>>
         ELSE IF recApi # {} THEN
              <<[l |-> ln, prop |-> "C16", ctx |-> Ctx(r), k |-> ev.k, kind |-> sc.kind, comp |-> sc.comp, target |-> sc.target,
